@@ -8,7 +8,7 @@ from typing import Dict, List, Optional
 from sa.canon import canon
 from sa.peval import peval, weak_orderings
 from sa.report import Ctx
-from sa.sym import FALSE, NONE, NOT, Summary, bind_args, conjuncts, show, subst, walk
+from sa.sym import callkw, FALSE, NONE, NOT, Summary, bind_args, conjuncts, show, subst, walk
 
 AOPS = "soundevent.arrays.operations"
 DIMS = "soundevent.arrays.dimensions"
@@ -170,7 +170,7 @@ class C17:
                             "return width + 1 samples (step 0.01, 10 samples: 38 of 147 (width, position) requests)", e.lineno,
                             witness={"step": 0.01, "samples": 10, "wrong_requests": "38 of 147"})
             elif f == NP("linspace"):
-                kw = dict(e.term[3])
+                kw = callkw(e.term)
                 num = kw.get("num", e.term[2][2] if len(e.term[2]) > 2 else None)
                 if num is not None and is_int_term(num, int_atoms):
                     ctx.ok("R17.1", f"{self.file}:{e.lineno} extend_dim_width", "np.linspace with integer num")
@@ -181,7 +181,7 @@ class C17:
         if len(re) != 1:
             ctx.undec("R17.6", site, "array.reindex(...) not found")
             return
-        rk = dict(re[0].term[3])
+        rk = callkw(re[0].term)
         if rk.get("fill_value") == fill:
             ctx.ok("R17.6", f"{self.file}:{re[0].lineno} extend_dim_width", "fill_value forwarded to reindex")
         else:
@@ -306,7 +306,7 @@ class C17:
         esite = f"{self.file}:{es.node.lineno} extend_dim"
         start, stop, eps, lc, rc = (("param", p) for p in ("start", "stop", "eps", "left_closed", "right_closed"))
         att = [e for e in es.calls if e.term[1][0] == "attr" and e.term[1][2] == "update"]
-        kw = dict(att[-1].term[3]) if att else {}
+        kw = callkw(att[-1].term) if att else {}
         ok = True
         for lcv, rcv in itertools.product((True, False), repeat=2):
             env = {("cmp", "is", start, NONE): False, ("cmp", "isnot", start, NONE): True, ("cmp", "is", stop, NONE): False,
@@ -333,7 +333,7 @@ class C17:
         if len(re) != 1:
             ctx.undec("R17.6", site, "arr.reindex(...) not found")
             return
-        rk = dict(re[0].term[3])
+        rk = callkw(re[0].term)
         idx = re[0].term[2][0] if re[0].term[2] else None
         newc = idx[1][0][1] if idx is not None and idx[0] == "dict" and len(idx[1]) == 1 and idx[1][0][0] == dim else None
         if newc is None or rk.get("fill_value") != fill:
